@@ -24,7 +24,7 @@ STUBS = os.path.join(VERIF, 'stubs')
 NCPU = int(os.environ.get('CV_JOBS', os.cpu_count() or 4))
 MEM_LIMIT_KB = int(os.environ.get('CV_MEM_KB', 12 * 1024 * 1024))
 
-SAFETY_FLAGS = ['--bounds-check', '--pointer-check', '--pointer-overflow-check',
+SAFETY_FLAGS = ['--bounds-check', '--pointer-check',
                 '--signed-overflow-check', '--div-by-zero-check']
 
 CANARY_TEXT = 'CV_CANARY'
@@ -419,3 +419,24 @@ def dfcc(inp, out, harness, enforce, replace=(), cwd=None, loop_contracts=False)
     if rc != 0:
         raise Undecided('goto-instrument --dfcc failed: %s' % (o + e)[-1500:])
     return out
+
+
+# --------------------------------------------------------------------------------------------
+# g++ witnesses (supporting static facts, compiled against the REAL headers)
+
+def gxx_syntax(path, incs, what, extra=()):
+    cmd = ['g++', '-std=c++17', '-fsyntax-only', '-w'] + [x for i in incs for x in ('-I', i)] + list(extra) + [path]
+    rc, out, err, s = run(cmd, timeout=300, limit=False)
+    if rc != 0:
+        raise Undecided('g++ witness failed (%s): %s' % (what, err[-1200:]))
+    return '%s: ok' % what
+
+
+def auto_witness_text(text):
+    """Original text with a static_assert behind every `auto x = e;` site: the type g++ deduces for
+    `auto` equals decltype(e) (what R-AUTO writes), modulo the declared const."""
+    def repl(m):
+        const = 'const ' if m.group(1).strip() else ''
+        return (m.group(0) + ' static_assert(std::is_same<decltype(%s), %sdecltype(%s)>::value, "R-AUTO witness");'
+                % (m.group(3), const, m.group(4).strip()))
+    return '#include <type_traits>\n' + re.sub(r'((?:const\s+)?)auto(\s+)(\w+)\s*=\s*([^;]+);', repl, text)
